@@ -22,6 +22,11 @@ class C08(EgSpec):
     streams = [
         {'name': 'default', 'component': 'egs', 'config': 'default', 'quick': 300, 'thorough': 8000},
         {'name': 'checks', 'component': 'egs', 'config': 'checks', 'quick': 150, 'thorough': 3000},
+        # rewriting: no panic in any iteration, check() passes after every iteration (extra.txt), observations = rewrite model
+        {'name': 'rewrites', 'component': 'egr', 'config': 'default', 'quick': 150, 'thorough': 4000},
+        {'name': 'rewrites_checks', 'component': 'egr', 'config': 'checks', 'quick': 80, 'thorough': 1500},
+        # rewriting over the arithmetic fragment with conditional / substitution / re-binding rules, then extraction of every class
+        {'name': 'arith_checks', 'component': 'eg3', 'config': 'checks', 'model_in_file': 'export.txt', 'quick': 60, 'thorough': 1500},
     ]
 
     def model_input(self, stream, case, impl_obs):
@@ -30,6 +35,21 @@ class C08(EgSpec):
     def evaluate(self, stream, case, impl_obs, model_obs, ctx):
         pc, pi = core.sx_parse(case), core.sx_parse(impl_obs)
         out = []
+        if stream['component'] in ('egr', 'eg3'):
+            import re
+            misuse = any(int(x) >= 100 for x in re.findall(r'\(rule (\d+) ', case))   # deliberately ill-formed rules: not "well-formed inputs"
+            extra = ctx.get('extras', {}).get(case, '')
+            if not misuse and '(err ' in impl_obs:
+                where = re.findall(r'\((?:iteration|observe|rules|history|export|run) [^()]*\)', extra)
+                out.append(('violation', 'rewrite-panic', 'rewriting / extraction panicked (%s build): %s %s' % (stream['config'], re.findall(r'\(err [^()]*\)', impl_obs)[:1], where[:1]), {}))
+                return out
+            bad = re.findall(r'\(check \d+ [^()]*\)', extra)
+            if not misuse and bad:
+                out.append(('violation', 'rewrite-inconsistent', 'after a rewriting iteration EGraph::check() fails (%s build): %s' % (stream['config'], bad[0]), {}))
+                return out
+            if stream['component'] == 'egr' and model_obs is not None and model_obs.strip() != impl_obs.strip():
+                out.append(('differs', 'model-rewrites', 'apply_rewrites observations differ from EGraph/Rewrite.v; no panic and no failed check() on the implementation', {'model': model_obs[:400]}))
+            return out
         steps = steps_of(pi)
         for k, st in enumerate(steps):
             if isinstance(st, list) and st and st[0] == 'err':
@@ -47,13 +67,15 @@ class C08(EgSpec):
         return out
 
     def nontrivial(self, stream, case, impl_obs):
+        if stream['component'] in ('egr', 'eg3'):
+            return '(it true' in impl_obs
         return hist_nontrivial(core.sx_parse(case))
 
     def distribution(self, stream, cases, impl):
         d = {}
         for c in cases:
             pc = core.sx_parse(c)
-            m = 'motif:' + (pc[4] if len(pc) > 4 else '?')
+            m = 'motif:' + (pc[4] if len(pc) > 4 and isinstance(pc[4], str) else '?')
             d[m] = d.get(m, 0) + 1
             d['operations'] = d.get('operations', 0) + len(pc[3]) - 1
         return d
